@@ -513,7 +513,17 @@ func (c *FuncCtx) binop(st *State, op token.Token, l, r *Val, pos token.Pos, res
 		return &Val{T: tBool, S: app(o, l.S, r.S), Sort: "Bool"}
 	case token.ADD:
 		if l.Sort == "String" {
-			return &Val{T: rt, S: strConcat(l.S, r.S), Sort: "String"}
+			res := &Val{T: rt, S: strConcat(l.S, r.S), Sort: "String"}
+			if !c.inSpec(st) && l.S != `""` && r.S != `""` {
+				for _, h := range c.eng.spec.Homs {
+					if con := c.eng.spec.Contracts[h]; con != nil && c.contract != nil && c.contract.mentions(h) {
+						uf := "uf_" + h
+						c.eng.declareUF(uf, fmt.Sprintf("(declare-fun %s (String) String)", uf))
+						st.assume(mkEq(app(uf, res.S), strConcat(app(uf, l.S), app(uf, r.S))))
+					}
+				}
+			}
+			return res
 		}
 		if l.Sort == "Real" {
 			return &Val{T: rt, S: app("+", l.S, r.S), Sort: "Real"}
